@@ -1,6 +1,8 @@
 import RjModel.Lemmas.SyncLemmas
 import RjModel.Lemmas.DoerLemmas
 import RjModel.Lemmas.BossOutcome
+import RjModel.Lemmas.RunLemmas
+import RjModel.Generated.RunSkel
 /-! # C07 — exit status 0 means everything was applied; every failure is reported -/
 namespace Rj.C07
 open Rj
@@ -103,5 +105,43 @@ theorem C07_hidden_entry_fails_fs {vis : FPath → Bool} {fs0 : FS} {r : FPath} 
     (hchild : fs0.get (r ++ (p ++ [c])) = some n) (hhidden : vis (p ++ [c]) = false) :
     syncDest fs0 r src ls ld = .err :=
   sync_hidden_child_fails hw hs p c n hdel hchild hhidden
+
+/-! ### the whole run: `execute_spec` over the syncs of a spec file -/
+open Rj.Run in
+/-- the control skeleton of `execute_spec` in the source (re-extracted on every run: the exit code of each failure path,
+which comms each path shuts down, whether the per-sync error arm returns at once, the function's final value; and that the
+function has no other exit and keeps no status in a variable) is the one the theorems below are proved for -/
+theorem C07_run_skeleton_matches : Generated.runSkelRecognised = true ∧ Generated.runSkel = RunSkel.ref := by decide
+
+open Rj.Run in
+/-- **Exit status 0 iff everything succeeded**: both doers were set up and every sync of the spec ended `Ok` - for any
+number of syncs and any pattern of failures, on the skeleton of the current source.  In particular a failing sync makes
+the run end non-zero however many later syncs would have succeeded (with `C07_failure_reported`: a failing operation
+makes its sync end `Err`). -/
+theorem C07_exit_zero_iff_all_ok (srcOk destOk : Bool) (outs : List Bool) :
+    (executeSpec Generated.runSkel srcOk destOk outs).code = 0 ↔ (srcOk = true ∧ destOk = true ∧ outs.all id = true) := by
+  rw [C07_run_skeleton_matches.2]; exact exit_zero_iff_all_ok srcOk destOk outs
+
+open Rj.Run in
+/-- the documented codes: 10 the source doer could not be set up, 11 the destination doer, 12 a sync failed; nothing else -/
+theorem C07_exit_codes (srcOk destOk : Bool) (outs : List Bool) :
+    let r := executeSpec Generated.runSkel srcOk destOk outs
+    (r.code = 10 ↔ srcOk = false) ∧ (r.code = 11 ↔ (srcOk = true ∧ destOk = false)) ∧
+    (r.code = 12 ↔ (srcOk = true ∧ destOk = true ∧ outs.all id = false)) ∧ r.code ∈ [0, 10, 11, 12] := by
+  rw [C07_run_skeleton_matches.2]; exact exit_codes srcOk destOk outs
+
+open Rj.Run in
+/-- **Nothing runs after a failure**: the syncs started are exactly those up to and including the first failing one -/
+theorem C07_syncs_run (outs : List Bool) :
+    (executeSpec Generated.runSkel true true outs).syncsRun =
+      if outs.all id then outs.length else (outs.takeWhile id).length + 1 := by
+  rw [C07_run_skeleton_matches.2]; exact syncs_run outs
+
+open Rj.Run in
+/-- what a changed skeleton would do (the shape of seeded change C07-7): an error arm that does not return lets a later
+success hide the failure -/
+example : (executeSpec { RunSkel.ref with syncErrReturn := none, finalIsSuccess := false } true true [false, true]).code = 0 := by decide
+open Rj.Run in
+example : (executeSpec RunSkel.ref true true [true, false, true]) = ⟨12, 2, 1, 1, true, true⟩ := by decide
 
 end Rj.C07
